@@ -99,10 +99,15 @@ def run(ctx):
             ctx.violation("recorded sender/receiver run is not explained by Xfr.tla", rej)
         if not any(e["ev"] == "xfer_bad" for e in evs):
             raise vlib.ToolError("no corrupted-closing-SOA stream was recorded")
-        if i == 0:
+        if ok and i == 0:
+            # (Trace_Xfr requires size + reserved <= 65535 of every message, so
+            # a transfer that should have been split and was not is a rejected
+            # trace = VIOLATION above; this guard only covers a recorder that
+            # never asked for a small budget)
             multi = sum(1 for e in evs if e["ev"] == "xfer" and len(e["msgs"]) > 1)
-            if multi == 0:
-                raise vlib.ToolError("no multi-message transfer was recorded")
+            small = sum(1 for e in evs if e["ev"] == "xfer" and e["total"] + e["reserved"] > 65535)
+            if multi == 0 or small == 0 or not any(e["ev"] == "xfer_udp" for e in evs):
+                raise vlib.ToolError("recorder produced no multi-message / UDP transfer")
             # binding self-tests: a corrupted trace must be rejected
             for what in ("drop-record", "final-content"):
                 bad = os.path.join(ctx.work, "trace-bad-%s.ndjson" % what)
